@@ -97,7 +97,11 @@ class ArgSpec:
             case int():
                 return str(arg)
             case float():
-                return str(arg)
+                text = repr(arg)
+                if "e" in text and "." not in text:
+                    # `1e-05` would be lexed as an identifier, `1.0e-05` is a number
+                    text = text.replace("e", ".0e")
+                return text
 
     @staticmethod
     def _spec_parameter_list_type_str(name: str, arg: ParameterListType) -> str:
@@ -575,11 +579,14 @@ def _parse_parameter_value_element(lexer: PipelineLexer) -> ParameterType:
             # otherwise an int
             return int(span.text)
         case Token(kind=SpecTokenKind.IDENT, span=span):
-            # identifiers are either true|false or treated as a string
+            # identifiers are either true|false, a non-finite float, or treated as a
+            # string
             if span.text == "true":
                 return True
             elif span.text == "false":
                 return False
+            elif span.text in ("inf", "-inf", "nan"):
+                return float(span.text)
             return span.text
         case token:
             # every other token type is invalid as a value
